@@ -78,6 +78,9 @@ fn preload(piece: &OrchestrationPiece) -> std::io::Result<Cache> {
 
         if file.metadata.is_padding_file { 
             results.push((None, vec![0; file.read_length as usize]));
+        } else if file.metadata.searches.is_none() {
+            // Only a segment of an empty file gets here without candidates: it contributes no bytes.
+            results.push((None, Vec::new()));
         } else {
             let search_paths = file.metadata.searches.as_ref().unwrap();
     
